@@ -1149,6 +1149,10 @@ rrul_fill_yly(echs_instant_t *restrict tgt, size_t nti, rrulsp_t rr)
 					}
 					/* attach scale and convert back to greg */
 					x = echs_instant_attach_scale(x, srcsca);
+					if (res && echs_instant_eq_p(tgt[res - 1U], x)) {
+						/* two dates shifted onto the same day */
+						continue;
+					}
 
 					tries = 64U;
 					tgt[res + GRP_CCH_OFF] = (echs_instant_t){.y = y};
@@ -1356,6 +1360,10 @@ rrul_fill_mly(echs_instant_t *restrict tgt, size_t nti, rrulsp_t rr)
 					}
 					/* attach scale and convert back to greg */
 					x = echs_instant_attach_scale(x, srcsca);
+					if (res && echs_instant_eq_p(tgt[res - 1U], x)) {
+						/* two dates shifted onto the same day */
+						continue;
+					}
 
 					tries = 64U;
 					tgt[res + GRP_CCH_OFF] = (echs_instant_t){.y = y, .m = m};
